@@ -25,6 +25,7 @@ import (
 	"go/types"
 	"sort"
 	"strings"
+	"time"
 
 	"golang.org/x/tools/go/packages"
 )
@@ -52,8 +53,10 @@ type val struct {
 	ek   string // elem: element kind (str | oid | int)
 	oid  []int
 	i    int64
+	n    int64 // time: nanoseconds
 	s    string
 	b    bool
+	of   *val // measure: the string value measured (elem or path); s = "len" | "runes"
 }
 
 type trans struct {
@@ -133,6 +136,9 @@ func fieldKind(ty types.Type) string {
 	if isOIDType(ty) {
 		return ""
 	}
+	if ty.String() == "time.Time" {
+		return "time"
+	}
 	if sl, ok := ty.Underlying().(*types.Slice); ok {
 		el := sl.Elem()
 		switch {
@@ -185,6 +191,39 @@ func (t *trans) globalOID(obj types.Object) ([]int, bool) {
 	return arcs, true
 }
 
+// package-level time.Time variable initialised by time.Date(consts…, time.UTC) or by another such variable
+func (t *trans) globalTime(obj types.Object, depth int) (sec, nsec int64, ok bool) {
+	v, isVar := obj.(*types.Var)
+	if !isVar || v.Pkg() == nil || v.Parent() != v.Pkg().Scope() || v.Type().String() != "time.Time" || depth > 4 {
+		return 0, 0, false
+	}
+	p := t.byPath[v.Pkg().Path()]
+	if p == nil {
+		return 0, 0, false
+	}
+	switch init := findVar(p, v.Name()).(type) {
+	case *ast.CallExpr:
+		if exprString(init.Fun) != "time.Date" || len(init.Args) != 8 || exprString(init.Args[7]) != "time.UTC" {
+			return 0, 0, false
+		}
+		var a [7]int64
+		for i := 0; i < 7; i++ {
+			n, ok := constInt(p, init.Args[i])
+			if !ok {
+				return 0, 0, false
+			}
+			a[i] = n
+		}
+		tm := time.Date(int(a[0]), time.Month(a[1]), int(a[2]), int(a[3]), int(a[4]), int(a[5]), int(a[6]), time.UTC)
+		return tm.Unix(), int64(tm.Nanosecond()), true
+	case *ast.Ident:
+		return t.globalTime(p.TypesInfo.Uses[init], depth+1)
+	case *ast.SelectorExpr:
+		return t.globalTime(p.TypesInfo.Uses[init.Sel], depth+1)
+	}
+	return 0, 0, false
+}
+
 func (t *trans) constOf(e ast.Expr) (val, bool) {
 	tv, ok := t.p.TypesInfo.Types[e]
 	if !ok || tv.Value == nil {
@@ -230,6 +269,9 @@ func (t *trans) value(e ast.Expr) val {
 		if arcs, ok := t.globalOID(obj); ok {
 			return val{kind: "oid", oid: arcs}
 		}
+		if sec, nsec, ok := t.globalTime(obj, 0); ok {
+			return val{kind: "time", i: sec, n: nsec}
+		}
 		unsupported("identifier %s", x.Name)
 	case *ast.SelectorExpr:
 		// package-qualified global
@@ -238,6 +280,9 @@ func (t *trans) value(e ast.Expr) val {
 				obj := t.p.TypesInfo.Uses[x.Sel]
 				if arcs, ok := t.globalOID(obj); ok {
 					return val{kind: "oid", oid: arcs}
+				}
+				if sec, nsec, ok := t.globalTime(obj, 0); ok {
+					return val{kind: "time", i: sec, n: nsec}
 				}
 				unsupported("global %s.%s", id.Name, x.Sel.Name)
 			}
@@ -259,6 +304,15 @@ func (t *trans) value(e ast.Expr) val {
 		}
 		unsupported("selector %s", exprString(x))
 	case *ast.CallExpr:
+		if name, _ := t.calleeName(x); (name == "builtin.len" || name == "unicode/utf8.RuneCountInString") && len(x.Args) == 1 && isStringType(t.typeOf(x.Args[0])) {
+			inner := t.value(x.Args[0])
+			if (inner.kind == "elem" && inner.ek == "str") || inner.kind == "path" {
+				if inner.kind == "path" {
+					noteField(inner.path, "str")
+				}
+				return val{kind: "measure", s: map[string]string{"builtin.len": "len", "unicode/utf8.RuneCountInString": "runes"}[name], of: &inner}
+			}
+		}
 		if name, _ := t.calleeName(x); name == "github.com/zmap/zlint/v3/util.GetExtFromCert" && len(x.Args) == 2 {
 			c := t.value(x.Args[0])
 			o := t.value(x.Args[1])
@@ -484,15 +538,20 @@ func (t *trans) compare(x *ast.BinaryExpr, cn string) interface{} {
 			return T{"len", p, flipCmp(cn), k.i}
 		}
 	}
-	// (intfield & mask) ==/!= 0
-	if b, ok := stripParen(x.X).(*ast.BinaryExpr); ok && b.Op == token.AND {
-		if z, ok := t.constOf(x.Y); ok && z.kind == "int" && z.i == 0 && (cn == "eq" || cn == "ne") {
+	// (intfield & mask) ==/!= k
+	if b, ok := stripParen(x.X).(*ast.BinaryExpr); ok && b.Op == token.AND && (cn == "eq" || cn == "ne") {
+		if z, ok := t.tryValue(x.Y); ok && z.kind == "int" && z.i >= 0 {
 			f, fok := t.tryValue(b.X)
-			m, mok := t.constOf(b.Y)
-			if fok && mok && f.kind == "path" && m.kind == "int" && m.i >= 0 && fieldKind(t.typeOf(b.X)) == "int" {
+			m, mok := t.tryValue(b.Y)
+			if fok && mok && f.kind == "path" && m.kind == "int" && m.i >= 0 && isIntegerType(t.typeOf(b.X)) {
 				noteField(f.path, "int")
-				c := T{"mask", f.path, m.i}
-				if cn == "eq" {
+				var c interface{}
+				if z.i == 0 {
+					c = T{"not", T{"mask", f.path, m.i}}
+				} else {
+					c = T{"maskEq", f.path, m.i, z.i}
+				}
+				if cn == "ne" {
 					return T{"not", c}
 				}
 				return c
@@ -508,6 +567,18 @@ func (t *trans) compare(x *ast.BinaryExpr, cn string) interface{} {
 		l, r = r, l
 		x = &ast.BinaryExpr{X: x.Y, Y: x.X, Op: x.Op}
 		cn = flipCmp(cn)
+	}
+	if l.kind != "measure" && r.kind == "measure" {
+		l, r = r, l
+		cn = flipCmp(cn)
+	}
+	if l.kind == "measure" && r.kind == "int" {
+		tag := map[string]string{"len": "pLen", "runes": "pRunes"}[l.s]
+		p := T{tag, cn, r.i}
+		if l.of.kind == "elem" {
+			return p
+		}
+		return T{"strP", l.of.path, p}
 	}
 	switch {
 	case l.kind == "path" && r.kind == "int" && fieldKind(t.typeOf(x.X)) == "int":
@@ -555,6 +626,28 @@ func (t *trans) callCond(c *ast.CallExpr) interface{} {
 			}
 		}
 		unsupported("string predicate %s", exprString(c))
+	}
+	// time comparisons
+	if name == "method:(time.Time).Before" || name == "method:(time.Time).After" || name == "method:(time.Time).Equal" {
+		op := strings.ToLower(name[len("method:(time.Time)."):])
+		sel := c.Fun.(*ast.SelectorExpr)
+		a := t.value(sel.X)
+		b := t.value(c.Args[0])
+		if a.kind == "time" && b.kind == "path" {
+			a, b = b, a
+			op = map[string]string{"before": "after", "after": "before", "equal": "equal"}[op]
+		}
+		if a.kind == "path" && a.path != "" {
+			noteField(a.path, "time")
+			switch b.kind {
+			case "time":
+				return T{"time", a.path, op, b.i, b.n}
+			case "path":
+				noteField(b.path, "time")
+				return T{"time2", a.path, op, b.path}
+			}
+		}
+		unsupported("time comparison %s", exprString(c))
 	}
 	// oid.Equal(other)
 	if strings.HasPrefix(name, "method:") && strings.HasSuffix(name, "asn1.ObjectIdentifier).Equal") && len(c.Args) == 1 {
@@ -851,6 +944,11 @@ func (t *trans) bind(s ast.Stmt) {
 			if v.kind == "elem" {
 				unsupported("alias of a loop variable")
 			}
+			if v.kind == "path" && v.path != "" {
+				if k := fieldKind(t.typeOf(x.Rhs[0])); k == "" {
+					unsupported("alias of %s", exprString(x.Rhs[0]))
+				}
+			}
 			t.env[t.p.TypesInfo.Defs[id]] = v
 			return
 		}
@@ -911,6 +1009,10 @@ func (t *trans) rangeStmt(s *ast.RangeStmt, rest []ast.Stmt, boolFn bool) interf
 	var preds []interface{}
 	var result interface{}
 	for _, b := range s.Body.List {
+		if as, ok := b.(*ast.AssignStmt); ok && as.Tok == token.DEFINE && len(preds) == 0 {
+			t.bindMeasure(as)
+			continue
+		}
 		is, ok := b.(*ast.IfStmt)
 		if !ok || is.Else != nil || len(is.Body.List) != 1 {
 			unsupported("loop body shape")
@@ -956,6 +1058,22 @@ func (t *trans) rangeStmt(s *ast.RangeStmt, rest []ast.Stmt, boolFn bool) interf
 	}
 	t.env = saved
 	return T{"ite", c, result, t.stmts(rest, boolFn)}
+}
+
+// characters := utf8.RuneCountInString(x) inside a loop body
+func (t *trans) bindMeasure(as *ast.AssignStmt) {
+	if len(as.Lhs) != 1 || len(as.Rhs) != 1 {
+		unsupported("loop body shape")
+	}
+	id, ok := as.Lhs[0].(*ast.Ident)
+	if !ok {
+		unsupported("loop body shape")
+	}
+	v := t.value(as.Rhs[0])
+	if v.kind != "measure" {
+		unsupported("loop body shape")
+	}
+	t.env[t.p.TypesInfo.Defs[id]] = v
 }
 
 // if _, ok := M[elem.String()]; ok { … }  with M a package-level map literal keyed by dotted OID strings
@@ -1101,8 +1219,11 @@ func collectFields(term interface{}, into map[string]bool) {
 	}
 	if tag, ok := n[0].(string); ok {
 		switch tag {
-		case "bool", "int", "mask", "strEq", "isNil", "len", "anyS", "anyO", "anyI":
+		case "bool", "int", "mask", "strEq", "isNil", "len", "anyS", "anyO", "anyI", "strP", "maskEq", "time":
 			into[n[1].(string)] = true
+		case "time2":
+			into[n[1].(string)] = true
+			into[n[3].(string)] = true
 		}
 	}
 	for _, c := range n {
